@@ -108,6 +108,10 @@ def c04Model (i : Input) (win : List Int) (stale : List (String × (Name → Opt
        ("values", commaInts (valuesT cs)), ("strings", commaNames (stringsT i.T cs)),
        ("vmap", showVMap (valueMap i.T cs)), ("smap", showSMap (stringMap i.T cs))]
       ++ win.flatMap (fun x => [(s!"str:{x}", showStr (stringOf i.kind i.T cs x)), (s!"valid:{x}", toString (isValid i.T cs x))])
+      -- the same observations after a history of decoder calls: the tables are immutable in the model
+      ++ [("values2", commaInts (valuesT cs)), ("strings2", commaNames (stringsT i.T cs)),
+          ("vmap2", showVMap (valueMap i.T cs)), ("smap2", showSMap (stringMap i.T cs))]
+      ++ win.map (fun x => (s!"valid2:{x}", toString (isValid i.T cs x)))
       ++ stale.map (fun (l, cur) => (s!"stale:{l}", if guardOK i.kind cs cur then "accepted" else "rejected"))
 
 def c04Spec (i : Input) (win : List Int) (stale : List (String × (Name → Option Int))) : List (String × String) :=
@@ -117,6 +121,10 @@ def c04Spec (i : Input) (win : List Int) (stale : List (String × (Name → Opti
    ("vmap", showVMap (d.map (fun c => (trim i.T c.name, (specValueOf i.T d (trim i.T c.name)).getD 0)))),
    ("smap", showSMap (d.map (fun c => (c.val, (specNameOf i.T d c.val).getD []))))]
   ++ win.flatMap (fun x => [(s!"str:{x}", showStr (specString i.T d x)), (s!"valid:{x}", toString (specValid d x))])
+  ++ [("values2", commaInts (specValues d)), ("strings2", commaNames (specStrings i.T d)),
+      ("vmap2", showVMap (d.map (fun c => (trim i.T c.name, (specValueOf i.T d (trim i.T c.name)).getD 0)))),
+      ("smap2", showSMap (d.map (fun c => (c.val, (specNameOf i.T d c.val).getD []))))]
+  ++ win.map (fun x => (s!"valid2:{x}", toString (specValid d x)))
   ++ stale.map (fun (l, cur) => (s!"stale:{l}", if specGuard d cur then "accepted" else "rejected"))
 
 def c04Case (id : String) (payload : List Sexp) : List String :=
@@ -208,6 +216,8 @@ def c12Model (i : Input) (q : C12Probes) : List (String × String) :=
             [(s!"parse:{j}", match parseEnum vm s with | some v => s!"ok {v}" | none => "err"),
              (s!"try:{j}", let r := tryParseEnum vm s q.target; s!"{r.1} {r.2}")])
       ++ q.ints.map (fun (n, kV, v) => (s!"isenum:{n}:{v}", toString (isEnum i.kind kV (valuesT cs) v)))
+      ++ [("values2", commaInts (valuesT cs)), ("strings2", commaNames (stringsT i.T cs)),
+          ("vmap2", showVMap (valueMap i.T cs)), ("smap2", showSMap (stringMap i.T cs))]
 
 def c12Spec (i : Input) (q : C12Probes) : List (String × String) :=
   let d := i.decl
@@ -228,6 +238,9 @@ def c12Spec (i : Input) (q : C12Probes) : List (String × String) :=
         [(s!"parse:{j}", match specParse T d s with | some v => s!"ok {v}" | none => "err"),
          (s!"try:{j}", let r := specDecode T d (some s) q.target; s!"{r.1} {r.2}")])
   ++ q.ints.map (fun (n, _, v) => (s!"isenum:{n}:{v}", toString (specIsEnum d v)))
+  ++ [("values2", commaInts (specValues d)), ("strings2", commaNames (specStrings T d)),
+      ("vmap2", showVMap (d.map (fun c => (trim T c.name, (specValueOf T d (trim T c.name)).getD 0)))),
+      ("smap2", showSMap (d.map (fun c => (c.val, (specNameOf T d c.val).getD []))))]
 
 def c12Case (id : String) (payload : List Sexp) : List String :=
   let p := Sexp.list (.atom "p" :: payload)
@@ -281,6 +294,23 @@ def c12vCase (id : String) (payload : List Sexp) : List String :=
         ((specValues i.decl).map (fun x => (s!"sql.rtv:{x}", showDec (true, x)))
           ++ (enumerate strs).map (fun (j, s) => (s!"sql.sdec:{j}", showDec (specDecode i.T i.decl (some s) target))))
         reg
+    | _ => both id [] [] "Out"
+
+/-- `(case <id> c12i (type …) (blocks B…) (name "s"))`: ParseEnum of one declared name, evaluated in a
+    package-level variable initializer of a file that sorts before the generated file -/
+def c12iCase (id : String) (payload : List Sexp) : List String :=
+  let p := Sexp.list (.atom "p" :: payload)
+  match parseInput p with
+  | none => err id "bad-enum-case"
+  | some i =>
+    let s := match p.field? "name" with
+      | some (.list [_, .atom a]) => nm a
+      | _ => []
+    let sh := fun (r : Option Int) => match r with | some v => s!"ok {v}" | none => "err"
+    match gen i.kind i.T i.scanned with
+    | .file cs =>
+      both id [("init.parse", sh (parseEnumAtInit (valueMap i.T cs) s))] [("init.parse", sh (specParse i.T i.decl s))]
+        (if F_init_order i then "F_init_order" else "Out")
     | _ => both id [] [] "Out"
 
 /-! ### C14 -/
